@@ -142,7 +142,10 @@ def c11(run):
 
 def c12(run):
     run.trace("tables", Q(run, 1, 4))
-    return run.finish(RULE_TRACE + "All 18 tables x all 226 registered keys x unregistered keys (numeric: every key +-1, byte-swapped, 0, all-ones, 16 random; text: all 512 3-character strings over an 8-symbol alphabet plus prefixes/extensions of registered keys).")
+    run.trace("tables-dynamic", Q(run, 2, 10), seed_off=100, patch_tables=True)
+    return run.finish(RULE_TRACE + "tables-dynamic: one new key and one overridden key per table registered through the exported Registry...Factory functions in a "
+                      "process of its own; the specification then judges that run against the pinned tables patched with the logged registrations. "
+                      "All 18 tables x all 226 registered keys x unregistered keys (numeric: every key +-1, byte-swapped, 0, all-ones, 16 random; text: all 512 3-character strings over an 8-symbol alphabet plus prefixes/extensions of registered keys).")
 
 
 def c15(run):
